@@ -472,18 +472,8 @@ theorem post_zone_new (tr : List Transition) (ty : List Ltt) (lp : List LeapSeco
   exact post_ok ⟨h1, h2, h3, fun t htm => ⟨(hty t htm).2.1, (hty t htm).2.2⟩⟩
 
 theorem post_parse_of_state (st : State) (footer : Option (List Nat))
-    (hs : StateV true st n ∨ StateV false st n) :
-    Post (
-      parseTransitions st.time_size st.header.version
-        ((chunks_exact st.time_size st.transition_times).zip st.transition_types) >>= fun transitions =>
-      parseTypes st.header.char_count st.names (chunks_exact TYPE_RECORD st.local_time_types) >>= fun types =>
-      parseLeaps st.time_size st.header.version
-        (chunks_exact (st.time_size + 4) st.leap_seconds) >>= fun leaps =>
-      if badIndicators st.header.type_count st.std_walls st.ut_locals then .err else
-      (match footer with
-        | some f => parseFooter f st.header.version
-        | none => .ok none) >>= fun extra_rule =>
-      Zone.new transitions types leaps extra_rule) ZoneValid := by
+    (hs : StateV true st n ∨ StateV false st n) : Post (parseRest st footer) ZoneValid := by
+  unfold parseRest
   have hts : st.time_size = 4 ∨ st.time_size = 8 := by
     rcases hs with h | h
     · exact Or.inl (by simpa using h.2.1)
